@@ -18,14 +18,19 @@ RULES = {
     "two initializer/input conversion passes and the restoring C-API helper change the number of graph inputs",
     "R3": "key completeness: the CSE key data-depends on every semantic facet of a node (operator identifier, number of "
     "outputs, inputs, attributes) and CSE skips subgraph-carrying and non-deterministic nodes; the initializer "
-    "deduplication keys depend on dtype, shape and content",
+    "deduplication keys depend on dtype, shape and content"
+    " ; comprehensions over node.inputs that feed the CSE key keep one entry per slot (no filter)",
     "R4": "an Identity from a graph input/initializer to a graph output is kept: the early exit dominates the rewrite; "
     "GRAPH/GRAPHS attributes are treated alike in every pass (S1)",
     "R5": "history-free pass objects: a field of a pass object that is written while the pass runs (per-run state) is "
     "re-initialised unconditionally in call()/requires() before its first use in that run, so the result for a model "
     "does not depend on the models the same pass object (or Sequential/PassManager holding it) processed before",
+    "R6": "attribute substitution while inlining is wholesale: where the cloner replaces a reference attribute by the "
+    "attribute looked up in its substitution map, every field of the attribute it builds (referenced parameter name, type, "
+    "value, doc string) is taken from the looked-up attribute - mixing in a field of the attribute being replaced makes the "
+    "inlined node refer to a parameter of the callee that the enclosing function does not declare",
 }
-FLOORS = {"R1": 5, "R2": 6, "R3": 8, "R4": 6, "R5": 8}
+FLOORS = {"R1": 5, "R2": 6, "R3": 8, "R4": 6, "R5": 8, "R6": 2}
 EXPLANATION = (
     "Four structural necessary conditions of semantic preservation that the pass mechanisms rely on: guarded removal, "
     "interface-size preservation (call-site scan with receiver typing), data-dependence of the equivalence keys on all "
@@ -463,7 +468,34 @@ def rule_r5(ctx, rule="R5"):
     ctx.require(n_fields >= 8, f"only {n_fields} per-run fields examined (RemoveUnusedFunctionsPass._used / InlinePass state expected)")
 
 
+def rule_r6(ctx):
+    f = ctx.repo.func("onnx_ir._cloner:Cloner.clone_attr")
+    key_param = f.params[1]
+    subs = [a for a in own_nodes(f.node) if isinstance(a, ast.Assign) and isinstance(a.targets[0], ast.Name) and isinstance(a.value, ast.Subscript)
+            and isinstance(a.value.value, ast.Attribute) and a.value.value.attr == "_attr_map"]
+    ctx.require(len(subs) == 1, "clone_attr: lookup in the substitution map not found")
+    r = subs[0].targets[0].id
+    blk = getattr(subs[0], "_parent", None)
+    ctors = [c for st in getattr(blk, "body", []) for c in ast.walk(st) if isinstance(c, ast.Call)
+             and (dotted_of(c.func) or "").split(".")[-1] in ("Attr", "RefAttr")]
+    ctx.require(len(ctors) >= 2, "clone_attr: attribute constructions in the substitution branch not found")
+    for c in ctors:
+        bad = None
+        for a in list(c.args) + [k.value for k in c.keywords]:
+            if isinstance(a, ast.Constant) or (isinstance(a, ast.Name) and a.id == key_param):
+                continue
+            if not any(isinstance(x, ast.Name) and x.id == r for x in ast.walk(a)):
+                bad = a
+        ctx.check("R6", f"clone_attr: {norm(c)[:70]} is built from the substituted attribute only", bad is None, f, c,
+                  f"`{norm(bad) if bad is not None else ''}` does not come from the looked-up attribute `{r}`: the new attribute mixes the callee's own "
+                  "reference with the caller's type/doc, so after inlining into a kept function the node refers to an attribute parameter that "
+                  "function does not have",
+                  how="arguments of the Attr/RefAttr constructions in the substitution branch mention the looked-up attribute (or are the key / constants)",
+                  construct=f"substitution mixes in {norm(bad) if bad is not None else ''}")
+
+
 def run(ctx):
+    rule_r6(ctx)
     rule_r5(ctx)
     rule_r1(ctx)
     rule_r2(ctx)
